@@ -12,12 +12,12 @@ EXPLANATION = (
     "flag equals its initial value, and when the input was given as a path the file the library opened is closed.  Nested loads (embedded project, "
     "sampler effect) get their own symbolic fault index.  Malformed data: one chunk length field symbolic over u32."
 )
-BOUNDS = {"quick": {"files": "8 fixtures: empty.sunvox, a MetaModule synth, amplifier + 5 seeded fixtures <= 560 bytes; both fault modes", "k": "1..R+1 (complete for each file, in segments of 40/100)",
+BOUNDS = {"quick": {"files": "8 fixtures: empty.sunvox, a MetaModule synth, amplifier + 5 seeded fixtures <= 560 bytes; fault modes raise (OSError) and eof (truncation); non-Exception interruption (cancel) on the 3-4 named fixtures", "k": "1..R+1 (complete for each file, in segments of 40/100)",
                     "malformed": "length field of every chunk of one small synth, drawn by a symbolic selector from 8-9 boundary values (0, 1, true-1, true+1, true+8, rest of file, rest+1, 2^31-1, 2^32-1)"},
           "thorough": {"files": "all fixtures <= 3 KB (48 files), both modes, path and file-object input", "k": "complete", "malformed": "as quick"}}
 OUTSIDE = ["a chunk length field symbolic over the whole u32 range (every later file offset becomes symbolic and the run does not finish; boundary values are selected symbolically instead)", "fixtures larger than 3 KB (vorbis-player, issue files): R grows with the file and every k is a path", "faults in seek()/tell() (the loader's rewind): only read() faults are injected",
            "two faults in one load"]
-ASSUMPTIONS = ["a fault is an exception raised by read() (InjectedFault, an OSError) or a short read; the loader may answer with any exception"]
+ASSUMPTIONS = ["a fault is an exception raised by read() (InjectedFault, an OSError; or Cancelled, a BaseException outside Exception) or a short read; the loader may answer with any exception"]
 
 FIX = "/repo/tests/files"
 
@@ -30,6 +30,7 @@ import rv.modules.sampler as _smp
 import builtins as _bi
 import io as _io
 import pathlib as _pl
+from vf.symio import Cancelled as _Cancelled
 
 FAULT_NAME = "vf_fault_injected_file.sunvox"
 _CURRENT = {"f": None, "opened": 0}
@@ -85,6 +86,8 @@ def run(data, k, init, mode, by_path, nested_k=None, use_str=True):
                 read_sunvox_file(f)
         except Exception:
             pass
+        except _Cancelled:
+            pass
         ok = rv.errors.RAISE_CONTROLLER_VALUE_ERRORS is init
         if by_path and (_CURRENT["opened"] != 1 or not f.closed):
             ok = False   # the library must have opened the path exactly once and closed what it opened
@@ -127,16 +130,17 @@ def obligations(tier, seed):
     for path in pick:
         R_, data = count_reads(path)
         name = os.path.basename(path).replace(".", "_").replace("-", "_")
-        for mode in ("raise", "eof"):
-            seg = 40 if mode == "raise" else 100
-            for by_path in ((True,) if tier == "quick" and mode == "eof" else (True, False)):
+        is_must = os.path.basename(path) in ("empty.sunvox", "metamodule-option-78.sunsynth", "amplifier.sunsynth", "metamodule.sunsynth")
+        for mode in ("raise", "eof", "cancel") if is_must else ("raise", "eof"):
+            seg = (100 if R_ <= 200 else 50) if mode == "eof" else 40
+            for by_path in ((True,) if (tier == "quick" and mode == "eof") or mode == "cancel" else (True, False)):
                 for lo in range(1, R_ + 2, seg):
                     hi = min(R_ + 1, lo + seg - 1)
                     body = f"""
     return run(DATA, k, init, {mode!r}, {by_path})
 """
                     obs.append(Ob(f"{mode}.{'path' if by_path else 'file'}.{name}.k{lo}", build([R("k", lo, hi), B("init")], body, setup=SETUP + f"DATA = {data!r}\n"),
-                                  f"{os.path.basename(path)}: whatever read call fails ({'exception' if mode == 'raise' else 'short read / truncation'}), the strictness flag is what it was before the load"
+                                  f"{os.path.basename(path)}: whatever read call fails ({'an OSError' if mode == 'raise' else 'an interruption that is not an Exception: the KeyboardInterrupt/SystemExit/GeneratorExit family' if mode == 'cancel' else 'short read / truncation'}), the strictness flag is what it was before the load"
                                   + (" and the file opened from the path is closed" if by_path else " and the caller's file object is left open"),
                                   group=mode, shape=f"{os.path.basename(path)} ({len(data)} bytes, {R_} read calls), input given as {'path' if by_path else 'file object'}",
                                   symbolic=f"fault index k over {lo}..{hi} (segments cover 1..{R_ + 1}), initial flag value", timeout=300))
